@@ -12,7 +12,8 @@ NS = 1_000_000_000
 U64 = (1 << 64) - 1
 
 
-def mk(ctx, name, hint='', **fields):
+def mk(ctx, _ty, _hint='', **fields):
+    name, hint = _ty, _hint
     order = ctx.src.struct_fields(name, hint)
     if order is None or set(order) != set(fields):
         raise Unsupported('struct %s: source fields %r, given %r' % (name, order, sorted(fields)))
